@@ -68,6 +68,21 @@ type Line struct {
 	Pre   []string `json:"pre"`
 	Post  []string `json:"post"`
 	Err   string   `json:"err"`
+	TS    uint64   `json:"ts"` // confirm lines: the timestamp the notification carried (the specification ignores it, so must the code)
+}
+
+// stamp is the timestamp of the i-th notification of behaviour idx: all zero, growing, shrinking (a later notification for an older
+// header) or scattered, depending on the behaviour.
+func stamp(idx int, seed int64, i int) uint64 {
+	switch (idx + int(seed%5)) % 4 {
+	case 0:
+		return 0
+	case 1:
+		return 1000 + 100*uint64(i)
+	case 2:
+		return 1000000 - 100*uint64(i)
+	}
+	return []uint64{5000, 0, 4500, ^uint64(0), 3900, 1, 4000, 7, 2}[i%9]
 }
 
 func (l *Line) norm() *Line {
@@ -118,14 +133,14 @@ var ProtocolNames = []string{"ClaimDeveloperRewards", "ChangeOwnerAddress", "Set
 func DeriveCfg(idx int, seed int64) *Cfg {
 	x := idx + int(seed%7)*5
 	n := 1 + x%3
-	return &Cfg{Enable: x%2 == 0, NShards: n, Self: (x / 3) % n, GasV: (x / 2) % 2, DNS: (x/5)%2 == 0}
+	return &Cfg{Enable: x%2 == 0, NShards: n, Self: (x/3)%(n+1) - 1, GasV: (x / 2) % 2, DNS: (x/5)%2 == 0}
 }
 
 // AllCfgs enumerates the configuration product.
 func AllCfgs() []*Cfg {
 	var l []*Cfg
 	for n := 1; n <= 3; n++ {
-		for s := 0; s < n; s++ {
+		for s := -1; s < n; s++ { // -1: the coordinator of the metachain (uint32(-1) is its shard id)
 			for _, en := range []bool{false, true} {
 				for g := 0; g < 2; g++ {
 					for _, d := range []bool{false, true} {
@@ -205,11 +220,11 @@ func RunBehaviour(idx int, c *Case, seed int64, emit func(*Line)) {
 	if l.Res != "ok" {
 		return
 	}
-	for _, e := range c.Seq {
+	for i, e := range c.Seq {
 		ep := Epoch(e)
-		cl := &Line{K: "confirm", Beh: idx, Act: EpochLimbs(act), E: EpochLimbs(ep), Cfg: *cfg}
+		cl := &Line{K: "confirm", Beh: idx, Act: EpochLimbs(act), E: EpochLimbs(ep), Cfg: *cfg, TS: stamp(idx, seed, i)}
 		guard(cl, func() {
-			sh.Notifier.Confirm(ep)
+			sh.Notifier.ConfirmAt(ep, cl.TS)
 			cl.Subs = len(sh.Notifier.Subs)
 			observe(sh.Container, cl)
 		})
